@@ -1,101 +1,38 @@
 #!/usr/bin/env python3
 """Entry point of every registered check:   tools/check.py <property id> quick|thorough
 
-Scenario-style properties are table driven: TLC runs an MC_* instance that prints scenarios (spec/Scen.tla
-vocabulary), harness/scen_run executes them against a sanitizer build of /repo's working tree."""
+Every check (1) has TLC check the model-level properties of the relevant TLA+ modules in /verif/spec on a bounded
+instance and export its behaviours, (2) builds /repo's *current working tree* with sanitizers in a scratch directory,
+(3) binds the two: pipeline G replays the exported behaviours on the real code and compares every observation,
+pipeline V records executions of the real code and has TLC validate them against the specification, and
+(4) classifies every disagreement by signature against known_findings.txt, writes evidence/<id>.json and exits
+0 (held) / 1 (VIOLATION lines printed) / 2 (the machinery itself failed; nothing is claimed)."""
 import json, os, sys, time
 sys.path.insert(0, os.path.dirname(os.path.abspath(__file__)))
 import vlib
+import parts
 
-# property -> list of generator runs: (MC module, {tier: constants}, tag, needs small heap)
-SCENARIO_CHECKS = {
-    "C01": [("MC_Vol", {"quick": {"MaxFiles": 2}, "thorough": {"MaxFiles": 3}})],
-    "C03": [("MC_Clm", {"quick": {"MaxFiles": 2}, "thorough": {"MaxFiles": 3}})],
-    "C04": [("MC_Lzh", {"quick": {"NSym": 314, "MaxCount": 65535, "MaxToks": 2}, "thorough": {"NSym": 314, "MaxCount": 65535, "MaxToks": 3}})],
-    "C06": [("MC_Map", {"quick": {"Tier": '"quick"'}, "thorough": {"Tier": '"thorough"'}})],
-    "C08": [("MC_Bmp", {"quick": {"MaxWidth": 40}, "thorough": {"MaxWidth": 70}})],
-    "C10": [("MC_Prt", {"quick": {}, "thorough": {}})],
-    "C15": [("MC_Huffman", {"quick": {"NSym": n, "Depth": d, "MaxCount": 1000}, "thorough": {"NSym": n, "Depth": d + 1, "MaxCount": 1000}})
-            for n, d in ((2, 10), (3, 7), (4, 6), (5, 5), (6, 4))],
-    "C17": [("MC_ResMgr", {"quick": {}, "thorough": {}})],
+CHECKS = {
+    "C01": parts.c01, "C02": parts.c02, "C03": parts.c03, "C04": parts.c04, "C05": parts.c05,
+    "C06": parts.c06, "C07": parts.c07, "C08": parts.c08, "C09": parts.c09, "C10": parts.c10,
+    "C11": parts.c11, "C12": parts.c12, "C13": parts.c13, "C14": parts.c14, "C15": parts.c15,
+    "C16": parts.c16, "C17": parts.c17, "C18": parts.c18, "C19": parts.c19, "C20": parts.c20,
 }
-# which scenario steps speak about which property when a generator serves several (prefix of the site after "<pid>.")
-ALIASES = {"C09": ("C08", ("tileset", "ts_detect", "tileset_bad")), "C16": ("C06", ("map_probe", "map_edits/cell", "map_edits/lava"))}
-OWN_SITES = {"C08": ("bmp_",), "C06": ("map_roundtrip", "map_edits")}
-
-
-def cfg_text(constants, invariants=()):
-    t = ""
-    if constants:
-        t += "CONSTANTS\n" + "".join(f"  {k} = {v}\n" for k, v in constants.items())
-    t += "SPECIFICATION Spec\nCHECK_DEADLOCK FALSE\n"
-    for i in invariants:
-        t += f"INVARIANT {i}\n"
-    return t
-
-
-def run_scenarios(pid, tier):
-    src_pid, only = pid, None
-    if pid in ALIASES:
-        src_pid, only = ALIASES[pid]
-    t0 = time.time()
-    src, lib = vlib.build_impl()
-    harness = vlib.build_harness("scen_run", src, lib)
-    work = os.path.join(os.environ.get("VERIF_SHM", "/dev/shm"), os.path.basename(vlib.scratch()))
-    os.makedirs(work, exist_ok=True)
-    import atexit, shutil
-    atexit.register(lambda: shutil.rmtree(work, ignore_errors=True))
-    states = generated = scen = steps = 0
-    mism, samples = [], []
-    for gi, (module, consts) in enumerate(SCENARIO_CHECKS[src_pid]):
-        c = consts[tier]
-        cfg = os.path.join(vlib.scratch(), f"{module}_{gi}.cfg")
-        inv = ("Inv", "Export") if module == "MC_Huffman" else ()
-        open(cfg, "w").write(cfg_text(c, inv))
-        r = vlib.run_tlc(module, cfg, tags=("S",), workers=(8 if module == "MC_Huffman" else 1), small_heap=(module == "MC_Lzh"))
-        if r["violation"] or not r["ok"]:
-            raise vlib.MachineryError(f"{module}: the specification instance did not pass its own checks:\n" + r["stdout"][-2500:])
-        recs = r["records"]["S"]
-        if not recs:
-            raise vlib.MachineryError(f"vacuity: {module} produced no scenario")
-        states += r.get("distinct", 0); generated += r.get("generated", 0)
-        sf = os.path.join(vlib.scratch(), f"{module}_{gi}.ndjson")
-        with open(sf, "w") as f:
-            for s in recs:
-                f.write(json.dumps(s) + "\n")
-        if len(samples) < 2:
-            s0 = json.dumps(recs[len(recs) // 2])
-            samples.append(json.loads(s0) if len(s0) < 4000 else {"id": recs[len(recs) // 2]["id"], "ops": [x["op"] for x in recs[len(recs) // 2]["steps"]]})
-        res = vlib.run_isolated([harness, "--scenarios", sf, "--workdir", work, "--prop", pid], max_crashes=80)
-        scen += res["summary"].get("scenarios", 0); steps += res["summary"].get("steps", 0)
-        mism += res["mismatches"]
-    # keep only the disagreements that speak about this property
-    def mine(m):
-        site = m["site"].split(".", 1)[1] if "." in m["site"] else m["site"]
-        if only is not None:
-            return site.startswith(only)
-        other = [p for p, (s, pre) in ALIASES.items() if s == src_pid for p in [pre]]
-        if pid == "C06" and m["kind"] == "getter":
-            return False                    # accessor faithfulness is C16's clause
-        return not any(site.startswith(pre) for pre in other) or any(site.startswith(o) for o in OWN_SITES.get(pid, ()))
-    mism = [m for m in mism if mine(m)]
-    ev = dict(coverage=dict(states=max(states, 1), transitions=max(generated, scen, 1), traces_validated_against_impl=scen,
-                            steps_replayed=steps, samples=samples, exhaustive=True,
-                            constants={m: c[tier] for m, c in SCENARIO_CHECKS[src_pid]}),
-              assumptions=["bounded instance: see constants", "clang ASan + selected UBSan checks, 64-bit"],
-              wall_s=round(time.time() - t0, 1))
-    return vlib.verdict(pid, mism, ev, tier)
 
 
 def main():
-    pid, tier = sys.argv[1], (sys.argv[2] if len(sys.argv) > 2 else os.environ.get("VERIF_TIER", "quick"))
-    if pid in ("C12", "C13"):
-        import check_streams
-        sys.argv = [sys.argv[0], pid, tier]
-        return check_streams.main()
-    if pid in SCENARIO_CHECKS or pid in ALIASES:
-        return run_scenarios(pid, tier)
-    raise vlib.MachineryError("no check registered for " + pid)
+    if len(sys.argv) < 2 or sys.argv[1] not in CHECKS:
+        print("usage: check.py <C01..C20> [quick|thorough]", file=sys.stderr)
+        return 2
+    pid = sys.argv[1]
+    tier = sys.argv[2] if len(sys.argv) > 2 else os.environ.get("VERIF_TIER", "quick")
+    if tier not in ("quick", "thorough"):
+        tier = "quick"
+    os.environ["VERIF_TIER"] = tier
+    t0 = time.time()
+    run = parts.Run(pid, tier)
+    CHECKS[pid](run)
+    return run.finish(round(time.time() - t0, 1))
 
 
 if __name__ == "__main__":
